@@ -318,7 +318,8 @@ def exhaustive(run: Run, found):
         run.count('exhaustive_strings', nstr)
         run.evaluations += nstr
         run.distinct_nontrivial += nstr
-        run.cov['exhaustive'] = f'all {nstr} strings over {"".join(ALPHA)!r} up to length {maxlen} x {len(CHAINS)} chains ({len(CHAINS6)} for length 6) on the fixture tree'
+        run.cov['exhaustive'] = True
+        run.cov['exhaustive_scope'] = f'all {nstr} strings over {"".join(ALPHA)!r} up to length {maxlen} x {len(CHAINS)} chains ({len(CHAINS6)} for length 6) on the fixture tree'
         outs = coq_eval_many('c09x', texts, timeout=900)
         bad_blocks = []
         for (prefix, free), out, hs in zip(sh, outs, expect):
